@@ -588,6 +588,9 @@ func c27RoundTripValue(c *c27Codec, v any, rnd *Rand) string {
 	if len(enc) > 16<<10 {
 		step = len(enc) / 512 // large boundary values: a sample of the prefixes (always the last 8)
 	}
+	if len(enc) > 1<<20 {
+		step = len(enc) / 48
+	}
 	for k := 0; k < len(enc); k++ {
 		if step > 1 && k%step != 0 && k < len(enc)-8 {
 			continue
